@@ -24164,6 +24164,11 @@ func (lex *Lexer) Lex() *token.Token {
 
 	// line internal/scanner/scanner.rl:497
 
+	if lex.ts > lex.te {
+		// the machine stopped in its error state before te was set for this token
+		lex.te = lex.ts
+	}
+
 	tkn.Value = lex.data[lex.ts:lex.te]
 	tkn.ID = token.ID(tok)
 
